@@ -57,9 +57,32 @@ def explore(arg):
         finally:
             env.close()
             seams.remove_db(b)
+        # ONE scheduler object: dry run, real run, dry run again; the last verdict must be that of a fresh scheduler on the same backend state
+        same = fresh = None
+        if drop is None:
+            c = crash.copy_db(db, "c28c")
+            arg_ = prepare(cfg)
+            env = evloop.Env([], db_path=c, id_salt=52)
+            try:
+                env.run(E.T(P["root"])(arg_), dryrun=True)
+                env.run(E.T(P["root"])(arg_), reuse_scheduler=True)
+                same = env.run(E.T(P["root"])(arg_), reuse_scheduler=True, dryrun=True)
+            finally:
+                env.close()
+            arg_ = prepare(cfg)
+            env = evloop.Env([], db_path=c, id_salt=53)
+            try:
+                fresh = env.run(E.T(P["root"])(arg_), dryrun=True)
+            finally:
+                env.close()
+                seams.remove_db(c)
         stats["pairs"] += 1
         stats["states"].add((c02.cfg_key(cfg), tuple(hist)))
         case = {"program": prog, "history": [list(h) for h in hist], "without_executor": drop}
+        if same is not None and (same[0], repr(same[1:])) != (fresh[0], repr(fresh[1:])):
+            viol.append((f"{prog}:dryrun-verdict-depends-on-scheduler-history:last={(hist[-1][0] if hist else 'init')}", case,
+                         f"{prog} {hist}: after dry run + real run on one Scheduler object a second dry run gave {same!r}; a fresh scheduler on the same "
+                         f"backend gives {fresh!r}"))
         last = (hist[-1][0] if hist else "init") + (f":without-{drop}" if drop else "")
         if dry_submits or dry_calls:
             viol.append((f"{prog}:dryrun-executes:last={last}", case, f"{prog} {hist}: dry run submitted {dry_submits} jobs, ran functions {dry_calls}"))
@@ -106,7 +129,7 @@ def run(ctx):
     from engine.common import check_harness_errors
 
     seams.template_db()
-    progs_ = ctx.pick(["chain", "catch", "file", "script", "badexec"], list(c02.PROGRAMS))
+    progs_ = ctx.pick(["chain", "catch", "file", "script", "badexec", "handle"], list(c02.PROGRAMS))
     depth = ctx.pick(2, 3)
     work = [(p, None, depth) for p in progs_] + [(p, a, depth) for p in progs_ for a in c02.actions(p)]
     res = ctx.pmap(explore, ctx.rotate(work), chunksize=1)
@@ -126,6 +149,7 @@ def run(ctx):
         "rule": f"backend states reached by every history of <= {depth} (edit / revert / version / argument / file) actions with real runs in between "
         "(so: empty, fully cached, partially cached, stale after edits); in each state the next configuration is run as a dry run and as a real "
         "run on two copies of the database; oracle: the dry run submits nothing and calls no task function; if it completes its value equals "
-        "the real run's; if it stops early the real run submits at least one job",
+        "the real run's; if it stops early the real run submits at least one job; on a third copy one Scheduler object does dry run, real run, dry run, "
+        "and the last verdict equals that of a fresh scheduler on the same database",
         "samples": [{"program": w[0], "first": list(w[1]) if w[1] else None} for w in work[:3]],
     }, "assumptions": ["default completion schedule for the real runs"]}
